@@ -163,17 +163,35 @@ class ExecutionPlanner:
                         dep_op.add_dep_of(new_op)
                 lt.output_ops.append(new_op)
 
-                # If this operation has no dependencies, it is part of
-                # `initial_operations`.
-                if len(new_op.exe_deps) == 0:
-                    initial_operations.append(new_op)
-
                 all_ops.append(new_op)
 
                 # N.B. Right now there's a 1-to-1 correspondence between
                 # tasks and operations. But with remote execution, this will
                 # change.
                 num_tasks_to_run += 1
+
+        # Second pass:
+        # A task with cached results was pruned above, which hides its
+        # dependencies from the tasks that depend on it. If some of these hidden
+        # dependencies will execute anyway (because another task needs them),
+        # the dependents must still wait for them (a task runs only after all
+        # of its transitive dependencies have completed successfully).
+        for lt in visited.values():
+            for op in lt.output_ops:
+                for dep in lt.deps:
+                    if len(visited[dep.task.identifier].output_ops) > 0:
+                        # Not pruned; linked in the first pass.
+                        continue
+                    for hidden_op in self._ops_hidden_behind(dep.task, visited):
+                        if hidden_op in op.exe_deps:
+                            continue
+                        op.add_exe_dep(hidden_op)
+                        hidden_op.add_dep_of(op)
+
+        # Operations that have no dependencies are the `initial_operations`.
+        for op in all_ops:
+            if len(op.exe_deps) == 0:
+                initial_operations.append(op)
 
         return ExecutionPlan(
             task_to_run=task_to_run,
@@ -182,3 +200,25 @@ class ExecutionPlanner:
             cached_tasks=cached_tasks,
             num_tasks_to_run=num_tasks_to_run,
         )
+
+    def _ops_hidden_behind(
+        self, pruned_task: TaskType, lowered: Dict[TaskIdentifier, LoweringTask]
+    ) -> List[Operation]:
+        """
+        Returns the operations of the tasks that `pruned_task` transitively
+        depends on and that will execute in this plan (stopping at the first
+        such task on each path).
+        """
+        ops: List[Operation] = []
+        seen = set()
+        stack = list(pruned_task.deps)
+        while len(stack) > 0:
+            task_id = stack.pop()
+            if task_id in seen:
+                continue
+            seen.add(task_id)
+            if task_id in lowered and len(lowered[task_id].output_ops) > 0:
+                ops.extend(lowered[task_id].output_ops)
+                continue
+            stack.extend(self._ctx.task_index.get_task(task_id).deps)
+        return ops
